@@ -3,8 +3,8 @@
 
    A state is one PDO list of a direction: at most MaxPdos PDOs, each assigned to sync manager 3 or not
    assigned (0xFF), each with at most MaxEnts entries whose object is one of Objs or padding (index 0),
-   subindex in Subs, bit length in Widths.  There is no behaviour (no step): every invariant is a
-   statement about the description.
+   subindex in Subs, bit length in Widths.  A step only extends the list (so that TLC reaches every list
+   within the bounds); every invariant is a statement about the description in the state.
 
    T1 Contiguous   the placed entries of the assigned PDOs tile [0, bits) in order, nothing overlaps
    T2 Inside       every placed entry lies inside the DirBytes bytes of the area
@@ -20,14 +20,19 @@
    T8 Unassigned   not-assigned PDOs change nothing: the layout is that of the list without them          *)
 EXTENDS TermDecl, TLC
 CONSTANTS MaxPdos, MaxEnts, Objs, Subs, Widths
-VARIABLE desc
+VARIABLES desc,     \* the PDO list
+          lay       \* its layout (a function of desc, kept in the state so that it is computed once)
 
-SeqsUpTo(S, n) == UNION {[1 .. k -> S] : k \in 0 .. n}
 EntSpace == [idx : Objs \cup {0}, sub : Subs, dtype : {1}, bits : Widths]
-PdoSpace == [index : {6656}, sm : {3, NotAssigned}, ents : SeqsUpTo(EntSpace, MaxEnts)]
-Init == desc \in SeqsUpTo(PdoSpace, MaxPdos)
-Next == UNCHANGED desc
-Spec == Init /\ [][Next]_desc
+LayOf(d) == DirLayout(Assigned(d), SmIn)
+Init == desc = <<>> /\ lay = LayOf(<<>>)
+(* the list grows by an empty PDO or by an entry of its last PDO: every list within the bounds is reached *)
+AddPdo == /\ Len(desc) < MaxPdos
+          /\ \E sm \in {3, NotAssigned} : desc' = Append(desc, [index |-> 6656, sm |-> sm, ents |-> <<>>])
+AddEnt == /\ Len(desc) > 0 /\ Len(desc[Len(desc)].ents) < MaxEnts
+          /\ \E e \in EntSpace : desc' = [desc EXCEPT ![Len(desc)].ents = Append(@, e)]
+Next == (AddPdo \/ AddEnt) /\ lay' = LayOf(desc')
+Spec == Init /\ [][Next]_<<desc, lay>>
 
 (* ---- encoders (only here: the devices encode, the specification decodes) ---- *)
 Lo8(x) == x % 256
@@ -51,8 +56,9 @@ OdOf(ps) == LET a == AssignedNos(ps) IN
             OdOfList(ps, 1, <<>>) \o [k \in 1 .. Len(a) |-> [idx |-> Idx1C13, sub |-> k, data |-> <<Lo8(a[k]), Hi8(a[k])>>]]
             \o <<[idx |-> Idx1C13, sub |-> 0, data |-> <<Len(a)>>]>>
 
-Lay == DirLayout(Assigned(desc), SmIn)
-Full == MkLayout([bits |-> 0, placed |-> <<>>], Lay)
+Lay == lay
+Full == MkLayout([bits |-> 0, placed |-> <<>>], lay)
+LayIsLayout == lay = LayOf(desc)
 Untyped(pl) == [k \in 1 .. Len(pl) |-> [pl[k] EXCEPT !.dtype = -1]]
 
 T1_Contiguous == /\ \A k \in 1 .. Len(Lay.placed) :
@@ -62,10 +68,11 @@ T1_Contiguous == /\ \A k \in 1 .. Len(Lay.placed) :
 T2_Inside == \A k \in 1 .. Len(Lay.placed) :
                 Lay.placed[k].pos + Lay.placed[k].bits <= 8 * DirBytes(Full, SmIn)
 T3_SiiRoundTrip == SiiPdos(EncSii(desc, 1, <<>>)) = [ok |-> TRUE, pdos |-> desc]
-T4_CoERoundTrip == LET od == OdOf(desc) IN
-    /\ OdListWF(od, Idx1C13, 2) /\ AssignmentWF(od, DeviceAssignment(od, Idx1C13))
-    /\ DirLayout(CoEPdos(od, DeviceAssignment(od, Idx1C13), 3), SmIn).placed = Untyped(Lay.placed)
-    /\ DirLayout(CoEPdos(od, DeviceAssignment(od, Idx1C13), 3), SmIn).bits = Lay.bits
+T4Body(od, asg) ==
+    /\ OdListWF(od, Idx1C13, 2) /\ AssignmentWF(od, asg)
+    /\ DirLayout(CoEPdos(od, asg, 3), SmIn) = [bits |-> Lay.bits, placed |-> Untyped(Lay.placed)]
+T4Od(od) == T4Body(od, DeviceAssignment(od, Idx1C13))
+T4_CoERoundTrip == T4Od(OdOf(desc))
 FmtCodes(f) == CASE f = "B" -> <<66>> [] f = "H" -> <<72>> [] f = "I" -> <<73>> [] f = "Q" -> <<81>> [] OTHER -> <<>>
 T5_AgreesC17 ==
     (\A k \in 1 .. Len(desc) : desc[k].sm # NotAssigned) /\ Representable(Full) =>
@@ -82,7 +89,7 @@ DefaultRes(e) == [status |-> "ok", sm |-> e.dir, byte |-> e.pos \div 8,
 FirstOfKey(k) == \A j \in 1 .. k - 1 : ~(Lay.placed[j].idx = Lay.placed[k].idx /\ Lay.placed[j].sub = Lay.placed[k].sub)
 DefaultTable == LET S == SelectSeq([k \in 1 .. Len(Lay.placed) |-> k],
                                    LAMBDA k : Lay.placed[k].idx # 0 /\ FirstOfKey(k)) IN
-                [i \in 1 .. Len(S) |-> [DefaultRes(Lay.placed[S[i]]) EXCEPT !.status = "ok"]
+                [i \in 1 .. Len(S) |-> DefaultRes(Lay.placed[S[i]])
                                        @@ [idx |-> Lay.placed[S[i]].idx, sub |-> Lay.placed[S[i]].sub]]
 PlainDecl(e) == [kind |-> "process", idx |-> e.idx, off |-> 0, sub |-> e.sub, dsm |-> "", pos |-> 0, poff |-> 0, ov |-> NoOv]
 T6_Defaults == Representable(Full) =>
@@ -91,10 +98,11 @@ T6_Defaults == Representable(Full) =>
           (i # j /\ Lay.placed[i].idx # 0 /\ Lay.placed[j].idx # 0) =>
               ~BadOverlap(PlainDecl(Lay.placed[i]), DefaultRes(Lay.placed[i]),
                           PlainDecl(Lay.placed[j]), DefaultRes(Lay.placed[j]))
+BitRes(e, n) == [sm |-> e.dir, byte |-> (e.pos + n) \div 8, bit |-> (e.pos + n) % 8, fmtc |-> <<>>]
 T7_BitInside == \A k \in 1 .. Len(Lay.placed) : \A n \in 0 .. 7 :
     n < Lay.placed[k].bits =>
-        \A r \in [sm : {SmIn}, byte : 0 .. DirBytes(Full, SmIn), bit : 0 .. 7, fmtc : {<<>>}] :
-            ProcLocOK(Lay.placed[k], [k |-> "bit", n |-> n], r) =>
-                Lo(r) >= Lay.placed[k].pos /\ Hi(r) <= Lay.placed[k].pos + Lay.placed[k].bits
+        /\ ProcLocOK(Lay.placed[k], [k |-> "bit", n |-> n], BitRes(Lay.placed[k], n))
+        /\ Lo(BitRes(Lay.placed[k], n)) >= Lay.placed[k].pos
+        /\ Hi(BitRes(Lay.placed[k], n)) <= Lay.placed[k].pos + Lay.placed[k].bits
 T8_Unassigned == Lay = DirLayout(SelectSeq(desc, LAMBDA p : p.sm = 3), SmIn)
 =============================================================================
